@@ -82,7 +82,14 @@ fn printable(b: u8) -> bool {
 /// a Coq `string` term: a literal for printable ASCII (`"` doubled, which is Coq's only escape), else
 /// the explicit byte list
 pub fn coq_string(s: &str) -> String {
-    if s.bytes().all(|b| (0x20..0x7f).contains(&b)) {
+    // words the proof audit greps for in the development (tools/vlib.py FORBIDDEN): a database identifier that
+    // contains one is spelled as bytes, so that data can never trip (or hide in) the audit
+    const AUDIT_WORDS: [&str; 12] = [
+        "Admitted", "admit", "Axiom", "Parameter", "Conjecture", "Admit Obligations", "Unset ", "bypass_check",
+        "type-in-type", "impredicative-set", "native_compute", "(*",
+    ];
+    let plain = s.bytes().all(|b| (0x20..0x7f).contains(&b)) && !AUDIT_WORDS.iter().any(|w| s.contains(w));
+    if plain {
         format!("\"{}\"", s.replace('"', "\"\""))
     } else {
         let items: Vec<String> = s.bytes().map(|c| c.to_string()).collect();
